@@ -43,6 +43,8 @@ static void flush(vf::Ctx& c){
 	if(it_!=s_.viol.end() && it_->second.wit.size()>=3) it_->second.count++; else (C).fail(cls_,GOT,WANT); } }while(0)
 static void SWEEP(const std::string& label,u64 total,u64 chunk,const std::function<void(vf::Ctx&,u64,u64)>& fn){ vf::sweep(label.c_str(),total,chunk,[&](vf::Ctx& c,u64 lo,u64 hi){ fn(c,lo,hi); flush(c); }); }
 static void PAR(const std::string& label,const std::function<void(int,int,vf::Ctx&)>& fn){ vf::parallel(label.c_str(),[&](int t,int T,vf::Ctx& c){ fn(t,T,c); flush(c); }); }
+// optional extra stride for the 2^32 sweeps (used by reduced re-runs, e.g. under sanitizers): --x-stride N
+static inline u64 xstride(){ auto it=vf::cfg().extra.find("stride"); if(it==vf::cfg().extra.end()) return 1; u64 s=strtoull(it->second.c_str(),0,10); return s<1? 1: s; }
 static inline u64 mixseed(const std::string& label,u64 a){ return vf::cfg().seed*0x9e3779b97f4a7c15ULL ^ vf::hash_str(label.c_str()) ^ (a+1)*0xD6E8FEB86659FD93ULL; }
 
 // ---------------------------------------------------------------- wide (exact) arithmetic for x*max
@@ -254,7 +256,8 @@ template<class F> static void drive(const char* nm,vf::Op& RT,vf::Op& Q,vf::Op& 
 	// ---------------- round trip over words
 	if(vf::want(RT)){
 		if(B<=20 || (th && B<=32 && (F::WORD || N==1))){   // thorough: all 2^32 words of every 32-bit format of the two headers and of the single-field 32-bit instantiations
-			SWEEP(L+".rt.all",1ULL<<B,1u<<14,[&](vf::Ctx& c,u64 lo,u64 hi){ for(u64 w=lo;w<hi;w++){ InW in{}; split<F>(w,in.code); vf::run(c,RT,in);} });
+			const u64 xs= B>20? xstride(): 1, ph= xs>1? (seed*2654435761ULL)%xs: 0;
+			SWEEP(L+".rt.all",(1ULL<<B)/xs,1u<<14,[&](vf::Ctx& c,u64 lo,u64 hi){ for(u64 i=lo;i<hi;i++){ InW in{}; split<F>(i*xs+ph,in.code); vf::run(c,RT,in);} });
 		} else {
 			for(int k=0;k<N;k++){
 				const int wd=F::width(k); const std::string lk=L+".rt.f"+std::to_string(k);
@@ -316,7 +319,7 @@ template<class F> static void drive_scalar_sweep(const char* nm,vf::Op& Q,vf::Op
 	const std::string L=nm; const u64 seed=vf::cfg().seed;
 	auto sw=[&](vf::Op& OP,bool full,bool pair,const char* tag){
 		if(!vf::want(OP)) return;
-		const u64 stride= full? 1: 61, phase= full? 0: (seed*2654435761ULL)%stride, total=(1ULL<<32)/stride;
+		const u64 stride= (full? 1: 61)*xstride(), phase= stride==1? 0: (seed*2654435761ULL)%stride, total=(1ULL<<32)/stride;
 		SWEEP(L+tag,total,1u<<18,[&](vf::Ctx& c,u64 lo,u64 hi){ for(u64 i=lo;i<hi;i++){ u32 b=(u32)(i*stride+phase); float x=bitsf(b); if(!isfinite_b(x)) continue;
 			if(!pair){ InX<float> in{}; in.x[0]=x; vf::run(c,OP,in); }
 			else { float y=bitsf(b+1); if(!isfinite_b(y)) continue; InM<float> in{}; in.a=x; in.b=y; vf::run(c,OP,in); } } });
